@@ -11,7 +11,7 @@ from perception_eval.evaluation.matching import MatchingLabelPolicy, MatchingMod
 from perception_eval.evaluation.metrics.tracking import clear as clear_mod
 from perception_eval.evaluation.metrics.tracking.clear import CLEAR
 
-from .. import apmodel
+from .. import apmodel, matching
 from ..core import Ctx, Taps, close, guarded
 from ..gen import objects as O
 
@@ -36,7 +36,7 @@ ASSUMPTIONS = [
     "ground-truth counts passed to CLEAR are taken as given",
     "a pair whose matching score is within 1e-6 of the threshold makes the history unjudged (counted)",
 ]
-DECIDING = ["CLEAR.events_judged", "CLEAR.pairs_checked", "C05.switches_seen", "C05.carry_over_seen", "C05.renamed_runs", "C05.named.perfect", "C05.named.reid", "C05.named.swap"]
+DECIDING = ["CLEAR.events_judged", "CLEAR.pairs_checked", "C05.switches_seen", "C05.carry_over_seen", "C05.renamed_runs", "C05.named.perfect", "C05.named.reid", "C05.named.swap", "TrackingMetricsScore.wiring_checked"]
 JOBS = {"quick": 4, "thorough": 14}
 CAR = AutowareLabel.CAR
 THR = {MatchingMode.CENTERDISTANCE: 1.0, MatchingMode.PLANEDISTANCE: 1.0, MatchingMode.IOU2D: 0.5, MatchingMode.IOU3D: 0.5}
@@ -119,6 +119,33 @@ def install(taps: Taps, ctx: Ctx) -> None:
         return __init__
 
     taps.method(clear_mod.CLEAR, "__init__", init_factory, tapname="CLEAR")
+
+    from perception_eval.evaluation.metrics.tracking import tracking_metrics_score as tms_mod
+
+    def tms_factory(orig):
+        def __init__(self, object_results_dict, num_ground_truth_dict, target_labels, matching_mode, matching_threshold_list):
+            orig(self, object_results_dict, num_ground_truth_dict, target_labels, matching_mode, matching_threshold_list)
+
+            def j():
+                # every label's CLEAR is computed from that label's own results, ground-truth count and threshold
+                ctx.count("TrackingMetricsScore.wiring_checked")
+                ok = len(self.clears) == len(target_labels)
+                detail = []
+                for i, (lab, thr) in enumerate(zip(target_labels, matching_threshold_list)):
+                    if i >= len(self.clears):
+                        break
+                    c = self.clears[i]
+                    eff = matching.label_threshold(type("L", (), {"semantic_label": type("S", (), {"label": lab})()})(), c.target_labels, c.matching_threshold_list)
+                    good = list(c.target_labels) == [lab] and eff is not None and float(eff) == float(thr) and c.num_ground_truth == num_ground_truth_dict[lab] and c.matching_mode == matching_mode
+                    ok = ok and good
+                    detail.append(dict(label=str(lab), threshold=float(thr), clear_labels=[str(x) for x in c.target_labels], clear_effective_threshold=None if eff is None else float(eff), n_gt=(c.num_ground_truth, num_ground_truth_dict[lab])))
+                ctx.check(ok, "C05/per_label_clear_not_given_that_labels_own_inputs", dict(mode=str(matching_mode), labels=detail[:6]), "TrackingMetricsScore")
+
+            guarded(ctx, "TrackingMetricsScore", j)
+
+        return __init__
+
+    taps.method(tms_mod.TrackingMetricsScore, "__init__", tms_factory, tapname="TrackingMetricsScore")
 
 
 def judge(ctx: Ctx, c: Any, frames: List[List[Any]]) -> None:
